@@ -76,7 +76,7 @@ def extract_nms():
     bdir = build.ensure_lib("asan")
     src = os.path.join(build.REPO, "src")
     incs = [src, os.path.join(bdir, "src"), os.path.join(build.REPO, "include"), os.path.join(bdir, "include"), bdir]
-    return _compile_run(NMS_C, incs, ["-fsanitize=address", os.path.join(bdir, "libsndfile.a"), "-lm"], "nmstab")
+    return _compile_run(NMS_C, incs, ["-fsanitize=address", os.path.join(bdir, "libsndfile.a"), "-lm"] + (["-lgcov"] if build.COVERAGE else []), "nmstab")
 
 
 def extract_gsm():
